@@ -10,7 +10,7 @@ from vt.build import close
 PROPERTY_ID = 'C14'
 
 RULE = ('Hypothesis draws a family (constant, identity, monomial with exponent 0..6 and prefactor, Legendre degree 0..8 with '
-        'domain scale 0.5..3, sine/cosine with alpha in [-3,3], Gauss and periodic Gauss with mean/variance, B-spline with '
+        'domain scale 1e-3..1000, sine/cosine with alpha in [-3,3], Gauss and periodic Gauss with mean/variance, B-spline with '
         'random knots, degree 1..3 and coefficients), the state dimension 1..4, the coordinate index, whether the dimension is '
         'passed to the constructor, and evaluation points in the domain (splines: away from knots), handed over as float arrays, '
         'python lists or integer-typed arrays/lists. Oracle: complex-step '
@@ -43,7 +43,7 @@ def fn_case(draw):
         c['prefactor'] = draw(st.sampled_from([1, 1, 2, -0.5, 3.25]))
     elif fam == 'legendre':
         c['degree'] = draw(st.integers(0, 8))
-        c['domain'] = draw(st.sampled_from([1.0, 1.0, 0.5, 2.0, 3.0]))
+        c['domain'] = draw(st.sampled_from([1.0, 1.0, 0.5, 2.0, 3.0, 10.0, 180.0, 1000.0, 1e-3]))     # (angles in degrees, lengths in mm / km)
     elif fam in ('sin', 'cos'):
         c['alpha'] = draw(st.sampled_from([1.0, 2.0, -1.5, 0.5, 3.0, -3.0, 0.0]))
     elif fam in ('gauss', 'periodic_gauss'):
